@@ -35,6 +35,7 @@ type valWorld struct {
 	pending    map[string]int  // validators stored with power 1 but not yet in the bonded set (added this block)
 	zeroed     map[string]bool // removed this block (power 0), to be purged at EndBlock
 	keyOf      map[string]int  // every stored validator's key index
+	pow        map[string]int64 // bonded power per operator (1 unless genesis said otherwise)
 	maxVals    uint32
 	histN      uint32
 	histNever0 bool
@@ -49,8 +50,8 @@ type valWorld struct {
 func (w *valWorld) logf(f string, a ...interface{}) { w.log = append(w.log, fmt.Sprintf(f, a...)) }
 func (w *valWorld) history() string                 { return strings.Join(w.log, "\n") }
 
-func newValWorld(nGenesis int, maxVals uint32, histN uint32) (*valWorld, error) {
-	w := &valWorld{bonded: map[string]int{}, pending: map[string]int{}, zeroed: map[string]bool{}, keyOf: map[string]int{}, recorded: map[int64]string{}, pruned: map[int64]bool{}, touched: map[string]int{},
+func newValWorld(nGenesis int, maxVals uint32, histN uint32, genesisPowers ...int64) (*valWorld, error) {
+	w := &valWorld{pow: map[string]int64{}, bonded: map[string]int{}, pending: map[string]int{}, zeroed: map[string]bool{}, keyOf: map[string]int{}, recorded: map[int64]string{}, pruned: map[int64]bool{}, touched: map[string]int{},
 		maxVals: maxVals, histN: histN, histNever0: histN > 0}
 	w.admin = henv.MakeUser("val-admin")
 	w.executors = []henv.User{henv.MakeUser("val-exec-0")}
@@ -72,6 +73,11 @@ func newValWorld(nGenesis int, maxVals uint32, histN uint32) (*valWorld, error) 
 		v, err := opchildtypes.NewValidator(w.ops[i], w.keys[i].PubKey(), fmt.Sprintf("gen%d", i))
 		if err != nil {
 			return nil, err
+		}
+		w.pow[string(w.ops[i])] = 1
+		if i < len(genesisPowers) && genesisPowers[i] > 0 {
+			v.ConsPower = genesisPowers[i]
+			w.pow[string(w.ops[i])] = genesisPowers[i]
 		}
 		gs.Validators = append(gs.Validators, v)
 		w.bonded[string(w.ops[i])] = i
@@ -197,8 +203,7 @@ func (w *valWorld) setParams(maxVals, histN uint32) (henv.Result, error) {
 func (w *valWorld) renderBonded() string {
 	var xs []string
 	for op, k := range w.bonded {
-		xs = append(xs, fmt.Sprintf("%X=%d", w.keys[k].PubKey().Address()[:4], 1))
-		_ = op
+		xs = append(xs, fmt.Sprintf("%X=%d", w.keys[k].PubKey().Address()[:4], w.pow[op]))
 	}
 	sort.Strings(xs)
 	return strings.Join(xs, ",")
@@ -271,12 +276,14 @@ func (w *valWorld) endBlock() ([]abci.ValidatorUpdate, error) {
 	for op, k := range w.pending {
 		if !w.zeroed[op] {
 			w.bonded[op] = k
+			w.pow[op] = 1
 		}
 	}
 	w.pending = map[string]int{}
 	for op := range w.zeroed {
 		delete(w.bonded, op)
 		delete(w.keyOf, op)
+		delete(w.pow, op)
 	}
 	w.zeroed = map[string]bool{}
 	ntBlock := false
@@ -312,8 +319,8 @@ func (w *valWorld) invariants() error {
 	}
 	// model (what the successful messages add up to)
 	want := map[string]int64{}
-	for _, k := range w.bonded {
-		want[string(w.keys[k].PubKey().Address())] = 1
+	for op, k := range w.bonded {
+		want[string(w.keys[k].PubKey().Address())] = w.pow[op]
 	}
 	if henv.RenderPowerMap(mirror) != henv.RenderPowerMap(want) {
 		return fmt.Errorf("consensus engine holds {%s}, accepted messages add up to {%s}", henv.RenderPowerMap(mirror), henv.RenderPowerMap(want))
@@ -420,4 +427,13 @@ func (w *valWorld) runBlock(rt *rapid.T) error {
 	}
 	w.l2.NextBlock(time.Second * 5)
 	return nil
+}
+
+// setParamsDirect changes max validators / retention between blocks (authority message, must succeed).
+func (w *valWorld) setParamsDirect(maxVals, histN uint32) (henv.Result, error) {
+	r, err := w.setParams(maxVals, histN)
+	if err == nil && !r.OK() {
+		err = fmt.Errorf("params update failed: %v", r.Err)
+	}
+	return r, err
 }
